@@ -48,6 +48,7 @@ class Runner:
         self.lean = lean_exe
         self.env = build.impl_env()
         self.workdir = workdir
+        self.preamble = {"impl": [], "lean": []}   # lines run at the start of every process
 
     def run_impl(self, lines, timeout=120):
         return run_exe(self.impl, lines, env=self.env, timeout=timeout, cwd=self.workdir)
@@ -64,11 +65,15 @@ class Runner:
         start = 0
         fn = self.run_impl if which == "impl" else self.run_lean
         while start < N:
-            lines = []
+            pre = self.preamble[which]
+            lines = list(pre)
             for k in range(start, N):
                 lines.append("reset")
                 lines.extend(scenarios[k].lines)
             rc, out, err = fn(lines, timeout=timeout)
+            if len(out) < len(pre):
+                raise RuntimeError("%s preamble failed: rc=%s %s" % (which, rc, err[-2000:]))
+            out = out[len(pre):]
             pos = 0
             crashed = False
             for k in range(start, N):
